@@ -149,7 +149,9 @@ pub fn build(l: &Layout) -> Built {
             None => compressed,
             Some(Enc::ZipCrypto { pw, infozip }) => {
                 flags |= 1;
-                let check = if *infozip {
+                // with a data descriptor the CRC is not known when the header is written: the check byte
+                // is then the high byte of the DOS time (Info-ZIP convention)
+                let check = if *infozip || dd != 0 {
                     if dd == 0 {
                         dd = 1;
                     }
